@@ -6,7 +6,7 @@
 (* on the text the harness rendered from a syntax tree, together with what *)
 (* came out.  Assembler!Accepts / Image / Origin / Breaks must explain it. *)
 (***************************************************************************)
-EXTENDS TraceCommon, Assembler
+EXTENDS TraceCommon, Assembler, SequencesExt
 
 VARIABLES l, bad
 vars == << l, bad >>
@@ -14,13 +14,18 @@ Ev == Rec[l]
 
 Init == l = 1 /\ bad = {}
 
+(* long images are recorded with each long run of zero words as one negative number (-length) *)
+Unsq(sq) == FlattenSeq([i \in 1 .. Len(sq) |-> IF sq[i] < 0 THEN [j \in 1 .. (0 - sq[i]) |-> 0] ELSE << sq[i] >>])
+Squeezed(ws) == \E i \in 1 .. Len(ws) : ws[i] < 0
+WordsOf(ws) == IF Squeezed(ws) THEN Unsq(ws) ELSE ws
+
 SymOk(e) == LET lo == LabelOffsets(e.ast)
             IN  /\ { p[1] : p \in { e.syms[k] : k \in 1 .. Len(e.syms) } } = DOMAIN lo
                 /\ \A k \in 1 .. Len(e.syms) : e.syms[k][2] = lo[e.syms[k][1]] + 1
 
 Good(e) == /\ e.res = "ok"
            /\ e.orig = OrigDecl(e.ast)
-           /\ e.words = Image(e.ast)
+           /\ WordsOf(e.words) = Image(e.ast)
            /\ { e.bps[k] : k \in 1 .. Len(e.bps) } = Breaks(e.ast)
            /\ SymOk(e)
 
